@@ -15,7 +15,23 @@ import (
 const (
 	RuleFOCT = "FieldsOnCorrectType"
 	RuleNS   = "FieldsOnCorrectTypeWithoutSuggestions"
+	// RulePanics is a user-registered validation rule (validator.AddRule, the
+	// way depth limits and the like are added) with a latent bug: it panics on
+	// an operation named PanicOpName. Validation is a gate; a rule that panics
+	// has not let the document pass.
+	RulePanics  = "C03RuleThatPanics"
+	PanicOpName = "C03RulePanics"
 )
+
+func init() {
+	validator.AddRule(RulePanics, func(observers *validator.Events, addError validator.AddErrFunc) {
+		observers.OnOperation(func(walker *validator.Walker, op *ast.OperationDefinition) {
+			if op.Name == PanicOpName {
+				panic(GatePanic{"validation rule " + RulePanics})
+			}
+		})
+	})
+}
 
 // fullRules is the rule set gqlparser registers by default (one AddRule per
 // file of validator/rules). Passing rules explicitly makes Validate
@@ -44,9 +60,9 @@ func rulesWithout(name string) []validator.Rule {
 }
 
 // Classify decides the document class of a query text independently of the
-// executor: perr (does not parse), noop (parses, no operation), ok (passes the
-// full rule set), unk (fails ONLY the field-existence rule), inv (fails some
-// other rule).
+// executor: perr (does not parse), noop (parses, no operation), vpan (the
+// registered rule RulePanics panics on it), ok (passes the full rule set), unk
+// (fails ONLY the field-existence rule), inv (fails some other rule).
 func Classify(schema *ast.Schema, query string) string {
 	doc, err := parser.ParseQuery(&ast.Source{Input: query})
 	if err != nil {
@@ -54,6 +70,11 @@ func Classify(schema *ast.Schema, query string) string {
 	}
 	if len(doc.Operations) == 0 {
 		return "noop"
+	}
+	for _, op := range doc.Operations {
+		if op.Name == PanicOpName {
+			return "vpan"
+		}
 	}
 	if len(validator.Validate(schema, doc, fullRules...)) == 0 {
 		return "ok"
@@ -125,22 +146,40 @@ type Request struct {
 	Query  string         `json:"query"`
 	OpName string         `json:"opname"`
 	Vars   map[string]any `json:"vars"`
-	Rej    Rej            `json:"rej"`
+	Gates  []Gate         `json:"gates"` // gate plan: which mutator gates reject / panic
 	// derived description (what the model is told)
 	Q      string   `json:"q"`
 	Cls    string   `json:"cls"`
 	OpSel  string   `json:"opsel"`
 	VarCls string   `json:"vars_cls"`
+	Opt    string   `json:"opt"` // operation type of the selected operation
 	Rounds []string `json:"rounds"`
 	Roots  []Root   `json:"roots"`
 	// observed
-	Resps []string `json:"resps,omitempty"`
+	Resps  []string `json:"resps,omitempty"`
+	Status []string `json:"status,omitempty"` // HTTP status of each answer (real transports)
+}
+
+// GatePlan is the gate plan as a class label: kinds and outcomes, no indices.
+func (q *Request) GatePlan() string {
+	if len(q.Gates) == 0 {
+		return "none"
+	}
+	parts := []string{}
+	for _, g := range q.Gates {
+		parts = append(parts, g.K+":"+g.O)
+	}
+	return strings.Join(parts, "+")
 }
 
 // ReqLine is the "Req" trace line.
 func (q *Request) ReqLine() map[string]any {
+	gates := q.Gates
+	if gates == nil {
+		gates = []Gate{}
+	}
 	return map[string]any{"e": "Req", "r": q.R, "kind": q.Kind, "q": q.Q, "cls": q.Cls, "opsel": q.OpSel,
-		"vars": q.VarCls, "rej": q.Rej, "rounds": q.Rounds, "roots": q.Roots}
+		"vars": q.VarCls, "opt": q.Opt, "gates": gates, "rounds": q.Rounds, "roots": q.Roots}
 }
 
 type docT struct {
@@ -181,10 +220,12 @@ var perrDocs = []string{"{ name", "query {", "{ name }}", "{ user { id }", "quer
 var unkDocs = []string{"{ nosuch }", "{ name zzz }", "{ user { nosuch } }", "{ user { id } bogus }", "mutation { nosuch }",
 	"{ user { friend { nope } } }", "query U { nosuch2 name }"}
 var noopDocs = []string{"fragment F on Query { name }", "fragment G on User { id }"}
+var vpanDocs = []string{"query " + PanicOpName + " { name }", "query " + PanicOpName + " { user { id } name }",
+	"mutation " + PanicOpName + " { setName(v: \"x\") }", "query A { name } query " + PanicOpName + " { a: name }"}
 
 // Kinds is the request alphabet of the property statement (plus "invalid":
 // a document failing another validation rule than field existence).
-var Kinds = []string{"valid", "parse-error", "unknown-field", "no-operation", "operation-not-found", "bad-variable", "multi-operation", "invalid"}
+var Kinds = []string{"valid", "parse-error", "unknown-field", "no-operation", "operation-not-found", "bad-variable", "multi-operation", "invalid", "rule-panic"}
 
 func pick[T any](rng *rand.Rand, xs []T) T { return xs[rng.Intn(len(xs))] }
 
@@ -204,7 +245,7 @@ func pad(rng *rand.Rand, q string) string {
 // GenRequest draws a request of the given kind. exts is the registered
 // extension list (for choosing a rejecting mutator).
 func GenRequest(rng *rand.Rand, kind string, exts []HookSet, allowSub bool) *Request {
-	q := &Request{Kind: kind, Rej: Rej{K: "none"}, Vars: map[string]any{}}
+	q := &Request{Kind: kind, Gates: []Gate{}, Vars: map[string]any{}}
 	switch kind {
 	case "valid":
 		if rng.Intn(3) == 0 {
@@ -215,9 +256,7 @@ func GenRequest(rng *rand.Rand, kind string, exts []HookSet, allowSub bool) *Req
 					break
 				}
 			}
-			if len(exts) > 0 && rng.Intn(6) == 0 {
-				q.Rej = Rej{K: pick(rng, []string{"pm", "cm"}), I: 1 + rng.Intn(len(exts))}
-			}
+			q.Gates = GenGates(rng, exts, 5)
 			return q
 		}
 		for {
@@ -253,6 +292,11 @@ func GenRequest(rng *rand.Rand, kind string, exts []HookSet, allowSub bool) *Req
 		q.Query = pick(rng, unkDocs)
 	case "no-operation":
 		q.Query = pick(rng, noopDocs)
+	case "rule-panic":
+		q.Query = pick(rng, vpanDocs)
+		if strings.HasPrefix(q.Query, "query A") {
+			q.OpName = "A" // the rule panics although another operation is selected
+		}
 	case "invalid":
 		// one document class per default validation rule (rules.go)
 		for {
@@ -269,20 +313,68 @@ func GenRequest(rng *rand.Rand, kind string, exts []HookSet, allowSub bool) *Req
 	if rng.Intn(3) == 0 {
 		q.Query = pad(rng, q.Query)
 	}
-	if len(exts) > 0 && rng.Intn(6) == 0 {
-		q.Rej = Rej{K: pick(rng, []string{"pm", "cm"}), I: 1 + rng.Intn(len(exts))}
-	}
+	q.Gates = GenGates(rng, exts, 5)
 	return q
+}
+
+// GenGates draws a gate plan: with probability 1/oneIn one or two mutator
+// gates that do not pass - each returns an error or panics - mostly at
+// positions where such a gate is registered (a command naming a position
+// without that gate must change nothing).
+func GenGates(rng *rand.Rand, exts []HookSet, oneIn int) []Gate {
+	out := []Gate{}
+	if len(exts) == 0 || rng.Intn(oneIn) != 0 {
+		return out
+	}
+	var pos []Gate
+	for i, e := range exts {
+		if e.PM {
+			pos = append(pos, Gate{K: "pm", I: i + 1})
+		}
+		if e.CM {
+			pos = append(pos, Gate{K: "cm", I: i + 1})
+		}
+	}
+	n := 1
+	if rng.Intn(3) == 0 {
+		n = 2
+	}
+	for j := 0; j < n; j++ {
+		g := Gate{K: pick(rng, []string{"pm", "cm"}), I: 1 + rng.Intn(len(exts))}
+		if len(pos) > 0 && rng.Intn(5) != 0 {
+			g = pick(rng, pos)
+		}
+		dup := false
+		for _, o := range out {
+			dup = dup || (o.K == g.K && o.I == g.I)
+		}
+		if dup {
+			continue
+		}
+		g.O = pick(rng, []string{"rej", "pan", "pan"})
+		out = append(out, g)
+	}
+	return out
 }
 
 // Describe fills the derived description of a request (what the model is
 // told about it) from the query text alone, using the parser and the
 // explicit-rule validator - never the executor under test.
-func (q *Request) Describe(schema *ast.Schema, http bool) {
+func (q *Request) Describe(schema *ast.Schema, tr string) {
 	q.Cls = Classify(schema, q.Query)
-	q.OpSel, q.VarCls = "found", "good"
+	q.OpSel, q.VarCls, q.Opt = "found", "good", "query"
+	// the request/response transports call the response handler once, the
+	// streaming ones (and the direct driver for subscriptions) until it
+	// returns nil
+	streaming := tr == "sse" || tr == "mixed" || tr == "ws"
 	q.Rounds = []string{"data"}
+	if streaming {
+		q.Rounds = []string{"data", "nil"}
+	}
 	q.Roots = []Root{}
+	if q.Gates == nil {
+		q.Gates = []Gate{}
+	}
 	if q.Cls == "perr" || q.Cls == "noop" {
 		return
 	}
@@ -293,7 +385,8 @@ func (q *Request) Describe(schema *ast.Schema, http bool) {
 		return
 	}
 	q.Roots = RootsOf(op)
-	if op.Operation == ast.Subscription && !http {
+	q.Opt = string(op.Operation)
+	if op.Operation == ast.Subscription && (streaming || tr == "direct" || tr == "") {
 		q.Rounds = []string{}
 		for i := 0; i < SubscriptionResponses; i++ {
 			q.Rounds = append(q.Rounds, "data")
@@ -317,6 +410,7 @@ var kindClass = map[string][3]string{
 	"operation-not-found": {"ok", "notfound", "good"}, "bad-variable": {"ok", "found", "bad"},
 	"parse-error": {"perr", "found", "good"}, "unknown-field": {"unk", "found", "good"},
 	"no-operation": {"noop", "found", "good"}, "invalid": {"inv", "found", "good"},
+	"rule-panic": {"vpan", "found", "good"},
 }
 
 // Consistent reports whether the independent classification agrees with the
@@ -340,17 +434,42 @@ func (q *Request) FromRuleDoc(d RuleDoc) {
 	}
 }
 
-// Accepted says whether the request passes every gate (the model computes
-// the same from the description; this copy is used for evidence classes).
-func (q *Request) Accepted(exts []HookSet) bool {
+// Fate says what becomes of the request: accepted | rejected | panicked (the
+// model computes the same from the description; this copy is used for
+// evidence classes and the non-vacuity counters only).
+func (q *Request) Fate(exts []HookSet, tr string) string {
+	stage := func(k string) string {
+		for i, e := range exts {
+			if (k == "pm" && e.PM) || (k == "cm" && e.CM) {
+				for _, g := range q.Gates {
+					if g.K == k && g.I == i+1 {
+						return g.O
+					}
+				}
+			}
+		}
+		return "acc"
+	}
+	switch stage("pm") {
+	case "pan":
+		return "panicked"
+	case "rej":
+		return "rejected"
+	}
+	if q.Cls == "vpan" {
+		return "panicked"
+	}
 	if q.Cls != "ok" || q.OpSel != "found" || q.VarCls != "good" {
-		return false
+		return "rejected"
 	}
-	if q.Rej.K == "pm" && q.Rej.I >= 1 && q.Rej.I <= len(exts) && exts[q.Rej.I-1].PM {
-		return false
+	switch stage("cm") {
+	case "pan":
+		return "panicked"
+	case "rej":
+		return "rejected"
 	}
-	if q.Rej.K == "cm" && q.Rej.I >= 1 && q.Rej.I <= len(exts) && exts[q.Rej.I-1].CM {
-		return false
+	if tr == "get" && q.Opt != "query" {
+		return "rejected"
 	}
-	return true
+	return "accepted"
 }
